@@ -44,6 +44,7 @@ def gen_cases(tier, seed):
                "nsched": 4 if tier == "quick" else 7} for i in range(n // 2)]
     cases += [{"id": f"c02-directed-{seed}-{i}", "seed": seed * 9001 + 70000 + i, "kind": "directed",
                "nsched": 8 if tier == "quick" else 12} for i in range(3 if tier == "quick" else 20)]
+    cases += plan_cases(tier, seed)
     pairs = []
     claims = ["static", "out", "vol", "amend_out", "amend_vol", "tree", "glob", "inp", "amend_inp", "static_pattern"]
     for ka in claims:
@@ -77,6 +78,96 @@ def directed_deferred_subplan():
                               ["raw", {"a": "gate", "name": "s1"}],
                               ["raw", {"a": "amend", "inp": ["out/late.txt"]}],
                               ["raw", {"a": "read", "path": "out/late.txt"}]]}}
+
+
+CYCLIC_MECH = ("two steps that each define the producer of the input the other one amends: with one "
+               "job slot both stay pending, with several the build succeeds")
+
+
+def plan_cases(tier, seed):
+    """Example directories of the repository whose plan.py builds standalone: built by the real CLI
+    with -j1 and -j4 (real step processes), results compared."""
+    repo = os.environ.get("VERIF_REPO", "/repo")
+    root = os.path.join(repo, "tests", "examples")
+    names = sorted(d for d in os.listdir(root) if os.path.isfile(os.path.join(root, d, "plan.py")))
+    rng = random.Random(seed * 977 + 3)
+    if tier == "quick":
+        names = sorted(set(rng.sample(names, 14)) | {"cyclic_dynamic"})
+        chunk = 3
+    else:
+        chunk = 6
+    return [{"id": f"c02-plans-{k // chunk}", "seed": seed, "kind": "plans", "names": names[k:k + chunk]}
+            for k in range(0, len(names), chunk)]
+
+
+def run_plans(case):
+    import subprocess
+    repo = os.environ.get("VERIF_REPO", "/repo")
+    counters = dict.fromkeys(["evaluations", "builds", "example_plans_tried", "example_plans_compared",
+                              "example_plans_not_standalone"] + REQUIRED_COUNTERS, 0)
+    violations = []
+    classes = set()
+    env = {k: v for k, v in os.environ.items() if not k.startswith("STEPUP_") and k not in ("HERE", "ROOT")}
+    env.update({"PATH": "/venv/bin:" + env.get("PATH", "/usr/bin:/bin"), "COLUMNS": "80",
+                "PYTHONPATH": os.pathsep.join([repo, os.path.dirname(os.path.dirname(os.path.dirname(
+                    os.path.abspath(__file__))))])})
+    for name in case["names"]:
+        counters["example_plans_tried"] += 1
+        results = {}
+        for j in (1, 4):
+            d = os.path.abspath(f"plan-{name}-j{j}")
+            shutil.copytree(os.path.join(repo, "tests", "examples", name), d, symlinks=True)
+            try:
+                proc = subprocess.run(["/venv/bin/stepup", "build", "-j", str(j), "--no-progress"], cwd=d, env=env,
+                                      stdin=subprocess.DEVNULL, capture_output=True, text=True, timeout=120)
+                rc = proc.returncode
+            except subprocess.TimeoutExpired:
+                rc = "timeout"
+                subprocess.run(["pkill", "-f", d], check=False)
+            counters["builds"] += 1
+            text = None
+            if os.path.exists(os.path.join(d, ".stepup", "graph.db")) and rc != "timeout":
+                cwd = os.getcwd()
+                os.chdir(d)
+                try:
+                    text, globs = H.graph_text(attached_only=False)
+                    files = c01.tree_outputs(".")
+                    files = {p: v for p, v in files.items() if not p.startswith(".stepup")}
+                except Exception as exc:  # noqa: BLE001
+                    text, globs, files = None, None, {"error": repr(exc)}
+                finally:
+                    os.chdir(cwd)
+            else:
+                globs, files = None, {}
+            results[j] = (rc, text, globs, files)
+            shutil.rmtree(d, ignore_errors=True)
+        (rc1, t1, g1, f1), (rc4, t4, g4, f4) = results[1], results[4]
+        if rc1 == "timeout" or rc4 == "timeout" or t1 is None or t4 is None:
+            counters["example_plans_not_standalone"] += 1
+            continue
+        counters["example_plans_compared"] += 1
+        counters["evaluations"] += 1
+        counters["schedules_compared"] += 1
+        counters["classes_compared"] += 1
+        classes.add(repr(("plan", name, rc1)))
+        what = f"example plan {name}: stepup build -j1 (exit {rc1}) versus -j4 (exit {rc4})"
+        wit = {"example": name, "case": case["id"]}
+        if rc1 != rc4:
+            mech = CYCLIC_MECH if name == "cyclic_dynamic" else "success or failure of a build depends on the schedule"
+            violations.append({"mechanism": mech, "message": what, "witness": wit})
+            continue
+        if rc1 == 0:
+            counters["graphs_compared"] += 1
+            if t1 != t4 or g1 != g4:
+                violations.append({"mechanism": "workflow graph after a successful build depends on the schedule",
+                                   "message": f"{what}: {first_diff(t1, t4)[:900]}", "witness": wit})
+            if f1 != f4:
+                diff = sorted(p for p in set(f1) | set(f4) if f1.get(p) != f4.get(p))
+                violations.append({"mechanism": "files on disk after a successful build depend on the schedule",
+                                   "message": f"{what}: {diff[:5]}", "witness": wit})
+    return {"status": "violation" if violations else "held", "violations": violations, "counters": counters,
+            "nontrivial": sorted(classes), "nontrivial_many": True,
+            "sample": {"case": case["id"], "examples": case["names"]}}
 
 
 def rc_class(rc):
@@ -115,6 +206,8 @@ def run_case(case):
             violations.append({"mechanism": mechanism, "message": f"{case['id']}: {message}",
                                "witness": json.loads(json.dumps({**witness, **(extra or {})}, default=str))})
 
+    if case["kind"] == "plans":
+        return run_plans(case)
     if case["kind"] == "text":
         os.makedirs("w")
         cwd = os.getcwd()
